@@ -1,7 +1,8 @@
 (* Bridge between a kernel regenerated from the source under test on every run (Gen/KRateLimit.v) and the kernel the
    hand-written model uses.  An edit to the code that changes the expression changes the generated file, and these
-   proofs no longer check. *)
+   proofs no longer check.  The proofs do not depend on how the source spells the computation. *)
 From Coq Require Import ZArith Bool Lia Arith List.
+From SZ Require Import Base.BridgeTac.
 From SZ Require Import Gen.KRateLimit.
 From SZ Require Import Base.Values.
 From SZ Require Import Sync.Nodes.
@@ -11,16 +12,15 @@ Import ListNotations.
 
 (* ---- rate_limit slot reservation -------------------------------------------------------------------- *)
 Lemma bridge_rl_next now next i : gen_rl_next now next i = fst (rl_slot now next i).
-Proof. reflexivity. Qed.
+Proof. unfold gen_rl_next, rl_slot. cbn [fst]. zkernel. Qed.
 
 (* the element is handed on at max(now, next): immediately when the line is idle, after the sleep otherwise *)
 Lemma bridge_rl_delivery now next i :
   (if gen_rl_must_sleep now next then now + gen_rl_sleep_for now next else now)%Z = snd (rl_slot now next i).
-Proof.
-  unfold gen_rl_must_sleep, gen_rl_sleep_for, rl_slot. cbn [snd].
-  destruct (Z.ltb_spec now next); lia.
-Qed.
+Proof. unfold gen_rl_must_sleep, gen_rl_sleep_for, rl_slot. cbn [snd]. zkernel. Qed.
 
 Lemma bridge_rl_step_guard (s : rst) : gen_rl_must_sleep (r_now s) (r_next s) = (r_now s <? r_next s)%Z.
-Proof. reflexivity. Qed.
-
+Proof.
+  unfold gen_rl_must_sleep. cbv zeta.
+  first [ reflexivity | match goal with |- ?a = ?b => destruct a eqn:?, b eqn:? end; zleaf ].
+Qed.
